@@ -8,9 +8,9 @@ CONSTANTS
   PageSizeRule = "le0"
   GuardLocation = TRUE
   GuardAlloc = TRUE
-  PageSizes <- PS1
+  PageSizes <- PS4
   MaxResp = 3
-  MaxCalls = 4
-  Families = {"range"}
+  MaxCalls = 3
+  Families <- AllFamilies
   Level = "lite"
 INVARIANT Props
